@@ -10,9 +10,22 @@
 pub open spec fn is_bracketed(h: Seq<char>) -> bool {
     h.len() >= 2 && h[0] == '[' && h.last() == ']'
 }
-/// the host without the brackets of an IP literal; everything else unchanged
+/// the host without the brackets of an IP literal; everything else unchanged.
+/// (Written as "drop the first char, then the last" so that it is literally what
+/// `strip_prefix('[')` followed by `strip_suffix(']')` compute; `lemma_strip_brackets` below
+/// proves that this is the text strictly between the brackets.)
 pub open spec fn strip_brackets(h: Seq<char>) -> Seq<char> {
-    if is_bracketed(h) { h.subrange(1, h.len() - 1) } else { h }
+    if is_bracketed(h) { h.subrange(1, h.len() as int).subrange(0, h.len() - 2) } else { h }
+}
+pub proof fn lemma_strip_brackets(h: Seq<char>)
+    ensures
+        is_bracketed(h) ==> strip_brackets(h) == h.subrange(1, h.len() - 1),
+        is_bracketed(h) ==> strip_brackets(h).len() == h.len() - 2,
+        !is_bracketed(h) ==> strip_brackets(h) == h,
+{
+    if is_bracketed(h) {
+        assert(h.subrange(1, h.len() as int).subrange(0, h.len() - 2) =~= h.subrange(1, h.len() - 1));
+    }
 }
 /// `rustls::pki_types::ServerName::try_from(h)` is `Ok`: `h` is a DNS name (labels of letters,
 /// digits, `-`, `_`, at most 63 bytes each, 253 in total) or the text of an IPv4 / IPv6 address
@@ -41,6 +54,10 @@ pub assume_specification<'a, P: core::str::pattern::Pattern>[str::strip_suffix::
         pat_char(p) is Some && r is Some ==> r->0@ == s@.subrange(0, s@.len() - 1);
 pub assume_specification<'a, 'b>[<String as From<&'a str>>::from](s: &'b str) -> (r: String)
     ensures r@ == s@;
+
+#[verifier::external_type_specification]
+#[verifier::external_body]
+pub struct ExIoError(std::io::Error);
 
 // ---- http ----------------------------------------------------------------------
 pub mod http {
@@ -91,6 +108,7 @@ pub mod rustls {
         use super::*;
         #[verifier::external_body]
         pub struct ServerName<'a> { _p: std::marker::PhantomData<&'a ()> }
+        #[derive(Debug)]
         pub struct InvalidDnsNameError;
         impl<'a> ServerName<'a> {
             /// ghost: the text this name was made from
@@ -115,6 +133,14 @@ pub mod rustls {
 pub mod tracing {
     #[verifier::external_body]
     pub struct Span { _p: () }
+}
+
+pub mod tokio {
+    pub mod io {
+        /// marker stand-ins: the extracted items only name these traits in bounds
+        pub trait AsyncRead {}
+        pub trait AsyncWrite {}
+    }
 }
 
 pub mod tokio_rustls {
